@@ -41,7 +41,7 @@ def oracle_c10(tr: Trace):
             # the public counter of PDUs ready to be sent agrees with what get_next_packet() hands out
             nr = st.prev["fields"]["num_ready"]
             if tr.kind == "source" and ((st.ob["ret"] == 0 and nr > 0) or (st.ob["ret"] == 1 and nr <= 0)):
-                raise Failure(f"F28 source ready counter out of sync with the PDU queue: {nr} reported ready, get_next_packet() "
+                raise Failure(f"C10 [fixed finding F28 is back] source ready counter out of sync with the PDU queue: {nr} reported ready, get_next_packet() "
                               f"returned {'a PDU' if st.ob['ret'] else 'nothing'} (op {st.i})")
             if st.ob["ret"] == 0 and nr > 0:
                 raise Failure(f"C10 the handler reports {nr} packet(s) ready but get_next_packet() returned nothing: its state is "
@@ -65,7 +65,7 @@ def oracle_c10(tr: Trace):
         if e == 1:
             if st.prev is None or st.prev["fields"]["qlen"] == 0:
                 if tr.kind == "source" and st.prev is not None and st.prev["fields"]["num_ready"] > 0:
-                    raise Failure(f"F28 source ready counter out of sync with the PDU queue: 'unretrieved PDUs' raised with an empty "
+                    raise Failure(f"C10 [fixed finding F28 is back] source ready counter out of sync with the PDU queue: 'unretrieved PDUs' raised with an empty "
                                   f"queue (op {st.i})")
                 raise Failure(f"C10 'unretrieved PDUs' raised although no PDU was queued when the call was made (op {st.i})")
         if st.tag == 0 and e in adm and st.prev is not None:
